@@ -3,7 +3,7 @@
     Proofs: Proofs/C06Proofs.v. Exact arithmetic; default AND CMA-MAE settings. *)
 From Coq Require Import List Arith Bool ZArith QArith Qreduction.
 From PV Require Import Base.ListUtil Base.QUtil Base.FirstArgmax Model.Store Model.Archive
-     Proofs.ArchiveProofs Proofs.C01Proofs Proofs.C02Proofs Proofs.C06Proofs.
+     Proofs.ArchiveProofs Proofs.C01Proofs Proofs.C02Proofs Proofs.C06Proofs Model.Cqd Proofs.CqdProofs.
 Import ListNotations.
 Local Open Scope nat_scope.
 
@@ -80,6 +80,28 @@ Proof.
   - vm_compute. repeat split; reflexivity.
 Qed.
 
+(** cqd_score (Model/Cqd.v = its defining formula over what data() lists: objective and measures of the current elites).
+    The score depends only on the multiset of current elites -- not on the order data() lists them in, hence not on the insertion
+    history, and never on unoccupied or stale slots (data() does not list them) ... *)
+Theorem C06_cqd_only_current_elites : forall (M T : Type) (dist : M -> T -> Q) (c : cqd_cfg) (e1 e2 : list (Q * M)) pens iters,
+  Permutation.Permutation e1 e2 -> oeq (cqd_mean dist c e1 pens iters) (cqd_mean dist c e2 pens iters).
+Proof. exact cqd_mean_perm. Qed.
+
+(** ... every per-target term is attained by a current elite and dominates all of them ... *)
+Theorem C06_cqd_target_max : forall (M T : Type) (dist : M -> T -> Q) (c : cqd_cfg) (e : list (Q * M)) pen t m,
+  qmax_list (map (cqd_value dist c pen t) e) = Some m ->
+  (exists x, In x e /\ (cqd_value dist c pen t x == m)%Q) /\ forall x, In x e -> (cqd_value dist c pen t x <= m)%Q.
+Proof. exact cqd_target_max. Qed.
+
+(** ... and it is defined exactly for non-empty archives (np.max over an empty axis raises) *)
+Theorem C06_cqd_defined : forall (M T : Type) (dist : M -> T -> Q) (c : cqd_cfg) (e : list (Q * M)) pens targets,
+  e <> [] -> exists s, cqd_iter dist c e pens targets = Some s.
+Proof. exact cqd_iter_defined. Qed.
+
+Theorem C06_cqd_empty : forall (M T : Type) (dist : M -> T -> Q) (c : cqd_cfg) pen pens t targets,
+  cqd_iter dist c [] (pen :: pens) (t :: targets) = None.
+Proof. exact cqd_iter_empty. Qed.
+
 Print Assumptions C06_stats_invariant.
 Print Assumptions C06_qd_score.
 Print Assumptions C06_num_elites.
@@ -88,3 +110,7 @@ Print Assumptions C06_written_is_content.
 Print Assumptions C06_elitist_max.
 Print Assumptions C06_noop_calls.
 Print Assumptions C06_clear_resets.
+Print Assumptions C06_cqd_only_current_elites.
+Print Assumptions C06_cqd_target_max.
+Print Assumptions C06_cqd_defined.
+Print Assumptions C06_cqd_empty.
